@@ -1,0 +1,65 @@
+/*!
+Verification hooks (cargo feature `verif-hooks`, off by default).
+
+Thin, behaviour-free wrappers that expose crate-private functions of this crate
+to the external verification harness. Nothing here is used by the crate itself.
+*/
+
+use {
+    grep_matcher::LineTerminator,
+    regex_syntax::hir::{literal::Seq, Hir},
+};
+
+use crate::error::Error;
+
+/// `strip::strip_from_match`.
+pub fn strip_from_match(
+    expr: Hir,
+    line_term: LineTerminator,
+) -> Result<Hir, Error> {
+    crate::strip::strip_from_match(expr, line_term)
+}
+
+/// `non_matching::non_matching_bytes`, as the sorted list of member bytes.
+pub fn non_matching_bytes(expr: &Hir) -> Vec<u8> {
+    let set = crate::non_matching::non_matching_bytes(expr);
+    (0..=255u8).filter(|&b| set.contains(b)).collect()
+}
+
+/// `ban::check`: true when the expression is rejected for the given byte.
+pub fn ban_check(expr: &Hir, byte: u8) -> bool {
+    crate::ban::check(expr, byte).is_err()
+}
+
+/// The stages of `literal::Extractor::extract_untagged` on the given HIR.
+pub fn inner_literal_stages(expr: &Hir) -> InnerLiteralStages {
+    crate::literal::verif_extract_stages(expr)
+}
+
+/// See [`inner_literal_stages`].
+#[derive(Clone, Debug)]
+pub struct InnerLiteralStages {
+    /// The sequence returned by `Extractor::extract`.
+    pub extracted: Seq,
+    /// The `prefix` tag of the sequence returned by `Extractor::extract`.
+    pub prefix: bool,
+    /// `extracted` after `optimize_for_prefix_by_preference`.
+    pub optimized: Seq,
+    /// The result of `Extractor::extract_untagged`.
+    pub untagged: Seq,
+}
+
+/// What `RegexMatcherBuilder::build_many` computes on the way to a matcher.
+#[derive(Clone, Debug)]
+pub struct BuildParts {
+    /// Result of `Config::is_fixed_strings` for the patterns.
+    pub fixed_strings: bool,
+    /// The HIR the regex is compiled from (after word / whole-line wrapping).
+    pub hir: Hir,
+    /// `Regex::is_accelerated` of the compiled regex.
+    pub accelerated: bool,
+    /// The sequence held by `InnerLiterals::new(&chir, &regex)`.
+    pub inner_literals: Seq,
+    /// `ConfiguredHIR::line_terminator`.
+    pub line_terminator: Option<LineTerminator>,
+}
